@@ -6,6 +6,8 @@
 (*     processes, with NO fault class allowed: death only where the file is whole, nobody reads    *)
 (*     a file while it is torn, every value can be serialised.  There the mechanism satisfies      *)
 (*     the law - one INVARIANT / PROPERTY line per clause.                                         *)
+(* MC  (MC_CfgStore_faults.cfg, NEXT NextFaults): ALL fault classes allowed, every read labelled   *)
+(*     with the class it happens under: reads under no fault satisfy the law (RL_none).            *)
 (* MC  (MC_CfgStore_f_<class>.cfg): the same with exactly ONE fault class allowed MUST violate     *)
 (*     ReadLaw: these runs say which crash points / interleavings / inputs break "old or new":     *)
 (*     death (or a reader) after the truncation and before anything reached the disk, death (or    *)
@@ -67,12 +69,15 @@ BetweenName(k) == IF k = "truncated" THEN "between_truncated" ELSE IF k = "parti
 LiveTorn == {TornKind(q) : q \in {q \in Procs : proc[q].alive}} \ {"none"}
 FaultNow == IF LiveTorn # {} THEN BetweenName(CHOOSE k \in LiveTorn : TRUE) ELSE taint
 
+\* a completed write repairs the file it went to; another file may still be torn by what happened before
+StillTorn == IF \E i \in 1..NPaths : disk'[i] # Absent /\ ~Parses(disk'[i]) THEN taint ELSE "none"
 ReaderKind(p) == IF proc[p].cached THEN (IF cnt.begin > 0 /\ p = 1 THEN "writer" ELSE "warm") ELSE "fresh"
 ReadEv(p) == [op |-> "read", p |-> p, adm |-> SetToSeq(out'.adm), fault |-> FaultNow, reader |-> ReaderKind(p),
               mech |-> [ok |-> IF out'.ok THEN 1 ELSE 0, cfg |-> out'.cfg]]
 \* ---- all fault classes at once, each read labelled with the class it happens under ----------------------
-\* (MC_CfgStore_faults.cfg, NEXT NextFaults, run with -continue: reads under "none" satisfy the law,
-\*  and for every fault class there is a read that does not)
+\* (MC_CfgStore_faults.cfg, NEXT NextFaults, INVARIANT RL_none: with every fault class allowed, a read that
+\*  happens under NO fault - before anything went wrong, or after a later complete write repaired the file -
+\*  satisfies the law; RL_<class> are the per-class statements, each of them false: see MC_CfgStore_f_<class>.cfg)
 FSpawn == \E p \in Procs : ASpawn(p) /\ Same /\ UNCHANGED <<hist, d0>>
 FCrash == \E p \in Procs : ACrash(p) /\ UNCHANGED <<hist, d0>>
                             /\ taint' = IF TornKind(p) = "none" THEN taint ELSE CrashName(TornKind(p))
@@ -80,7 +85,7 @@ FRead  == \E p \in Procs : ARead(p) /\ Same /\ UNCHANGED <<hist, d0>>
 FBegin == \E p \in Procs, c \in WriteCfgs : ABegin(p, c) /\ Same /\ UNCHANGED <<hist, d0>>
 FOpen  == \E p \in Procs : AOpen(p) /\ Same /\ UNCHANGED <<hist, d0>>
 FFlush == \E p \in Procs, k \in 1..(Len(KeyOrd) + 2) : AFlush(p, k) /\ Same /\ UNCHANGED <<hist, d0>>
-FClose == \E p \in Procs : AClose(p) /\ taint' = "none" /\ UNCHANGED <<hist, d0>>
+FClose == \E p \in Procs : AClose(p) /\ taint' = StillTorn /\ UNCHANGED <<hist, d0>>
 FFail  == \E p \in Procs : AFail(p) /\ taint' = "bad_value" /\ UNCHANGED <<hist, d0>>
 NextFaults == FSpawn \/ FCrash \/ FRead \/ FBegin \/ FOpen \/ FFlush \/ FClose \/ FFail
 \* a read changes neither the disk nor who is in the middle of a write: FaultNow after it = before it
@@ -104,7 +109,7 @@ GRead  == \E p \in Procs : ARead(p) /\ ~LastIsReadBy(p) /\ (Begun \/ (p # 1 /\ W
 GBegin == \E c \in WriteCfgs : ABegin(1, c) /\ Ev([op |-> "begin", p |-> 1, cfg |-> c]) /\ Same
 GOpen  == \E p \in Procs : AOpen(p) /\ Ev([op |-> "open", p |-> p, path |-> proc[p].path]) /\ Same
 GFlush == \E p \in Procs, k \in GenFlush : proc[p].flushed = 0 /\ AFlush(p, k) /\ Ev([op |-> "flush", p |-> p, k |-> k]) /\ Same
-GClose == \E p \in Procs : AClose(p) /\ Ev([op |-> "close", p |-> p]) /\ taint' = "none"
+GClose == \E p \in Procs : AClose(p) /\ Ev([op |-> "close", p |-> p]) /\ taint' = StillTorn
 GFail  == \E p \in Procs : AFail(p) /\ Ev([op |-> "fail", p |-> p, more |-> IF TargetAfter(proc[p].path) = 0 THEN 0 ELSE 1]) /\ taint' = "bad_value"
 \* the print comes first: once per expanded state
 NextGen == /\ PrintT(ToJson([init |-> d0, hist |-> hist, disk |-> disk]))
